@@ -140,7 +140,9 @@ ABSL_ATTRIBUTE_NOINLINE void GarbageCollector<R>::keep_reclaim() noexcept {
   ::std::vector<ReclaimTask> tasks;
   size_t backoff_us = 1000;
   tasks.reserve(batch);
-  while (running) {
+  // Keep going after the stop marker was consumed until every task taken out
+  // of the queue before it has been reclaimed: stop() promises to wait for them
+  while (running || index < tasks.size()) {
     if (index == tasks.size()) {
       tasks.clear();
       running = consume_reclaim_task(batch, tasks);
